@@ -227,6 +227,17 @@ pub struct TalSpec {
     pub key: usize,
     /// Certificate URIs in TAL order (`rsync://…` or `https://…`).
     pub uris: Vec<String>,
+    /// The runs (indexes into `Scenario.runs`) during which the TAL file is
+    /// installed; `None`: always. Two `TalSpec`s with the same name and
+    /// disjoint `runs` model a TAL file whose content (key, URIs) changes.
+    #[serde(default, skip_serializing_if = "Option::is_none")]
+    pub runs: Option<Vec<usize>>,
+}
+
+impl TalSpec {
+    pub fn active_in(&self, run: usize) -> bool {
+        self.runs.as_ref().map(|runs| runs.contains(&run)).unwrap_or(true)
+    }
 }
 
 #[derive(Clone, Debug, Default, Deserialize, Eq, PartialEq, Serialize)]
@@ -236,6 +247,13 @@ pub struct World {
 }
 
 impl World {
+    /// The TALs installed during run `run`, sorted by name (the order in
+    /// which the engine queues them).
+    pub fn tals_in(&self, run: usize) -> Vec<&TalSpec> {
+        let mut res: Vec<&TalSpec> = self.tals.iter().filter(|t| t.active_in(run)).collect();
+        res.sort_by(|a, b| a.name.cmp(&b.name));
+        res
+    }
     pub fn ca(&self, name: &str) -> Option<&CaSpec> {
         self.cas.iter().find(|ca| ca.name == name)
     }
